@@ -104,6 +104,15 @@ def wide_ops(ctx: Ctx, table: list) -> list[dict]:
         for x in chars:
             for y in chars:
                 add(x + y + iban[2:])
+    # every two-character prefix with check digits that are RIGHT for that prefix: only the
+    # table decides now (an unknown or foreign prefix must still be rejected)
+    up = string.ascii_uppercase + string.digits
+    for row in bodies:
+        body = gen.bban_for(row, rng)
+        for x in up:
+            for y in up:
+                if x.isalpha() and y.isalpha():
+                    add(x + y + gen.check_digits(x + y, body) + body)
     # random near-valid and random wild texts
     nrand = 3000 if ctx.quick else 60000
     rows = [r for r in table if gen.row_classes(r) is not None]
